@@ -196,9 +196,10 @@ func runC06tcp(line string) string {
 		return true
 	})
 	type kept struct {
-		c    net.Conn
-		b    int
-		open bool
+		c           net.Conn
+		b           int
+		open        bool
+		backendDone bool // opened with H: the backend has finished its direction
 	}
 	var ks []*kept
 	halfClosed := map[int]bool{}
@@ -226,7 +227,7 @@ func runC06tcp(line string) string {
 			c.SetReadDeadline(time.Now().Add(2 * time.Second))
 			b := make([]byte, 1)
 			if n, _ := c.Read(b); n == 1 {
-				k := &kept{c: c, b: int(b[0] - '0'), open: true}
+				k := &kept{c: c, b: int(b[0] - '0'), open: true, backendDone: op[0] == 'H'}
 				ks = append(ks, k)
 				res = "b" + string(b)
 				if op[0] == 'H' {
@@ -318,7 +319,13 @@ func runC06tcp(line string) string {
 					tc.Write([]byte("h"))
 					time.Sleep(5 * time.Millisecond)
 					tc.CloseWrite()
-					halfClosed[arg] = true
+					if ks[arg].backendDone {
+						// both directions are over now: the relay ends, the connection no longer counts
+						ks[arg].open = false
+						ks[arg].c.Close()
+					} else {
+						halfClosed[arg] = true
+					}
 				}
 			}
 		case 'c':
